@@ -129,6 +129,8 @@ NUMS = [0, 1, -1, 2, 2.5, -2.5, 0.0045, 1.005, 10, 1e15, 2 ** 53 + 1, -0.0, 1e16
 TEXTS = ['', 'a', 'abc', 'ABC', 'a?c', 'a*', '~*x', '10', '1.5', 'nan', 'x[1]', '2024-01-31', '31/01/2024', '12:30', '5%', '1 234,5', 'a.b', '(a)']
 DATES = [dt.datetime(2024, 1, 31), dt.datetime(2024, 2, 29), dt.datetime(2023, 12, 31, 23, 59), dt.datetime(2020, 2, 29), dt.datetime(2024, 3, 1)]
 COL = [[1], [3], [3], [7], [B], ['x']]
+ROW = [[1, 3, 3, 7, 9, 'x']]          # a horizontal range arrives as ONE row
+ROW2 = [[10, 20, 30, 40, 50]]
 TABLE = [[1, 'a', 10.5], [3, 'b', 20], [3, 'c', 30], [7, 'd', B], [B, 'e', 50]]
 
 
@@ -149,10 +151,10 @@ def synth(name, rng, n):
         '_mid': lambda: (P(TEXTS), P([-1, 0, 1, 2, 5]), P([-1, 0, 1, 3])),
         '_search': lambda: (P(['a', 'B', 'b?', '*c', '~*', 'x[', '.', '', 'C*']), P(TEXTS), P([None, 0, 1, 2, 9])),
         '_value': lambda: (P(TEXTS + [' 7 ', '-3', '1e3', '1,5']),), '_excel_value_to_string': lambda: (P(scal),),
-        '_match': lambda: (P([1, 3, 3.0, 5, 9, 0, 'x', 'X', B]), COL, P([0, 1, -1])),
-        '_xmatch': lambda: (P([1, 3, 5, 9, 'x']), COL, P([0, -1, 1]), P([1, -1, 2, -2, 5])),
-        '_vlookup': lambda: (P([1, 3, 3.0, 5, 9, 0, 'x', B]), TABLE, P([1, 2, 3]), P([True, False, 0, 1, 'x'])),
-        '_index': lambda: (P([TABLE, COL, [[1, 2, 3]], (TABLE, COL)]), P([-1, 0, 1, 2, 9, None]), P([None, 0, 1, 3, 9, -1]), P([1, 2, 3])),
+        '_match': lambda: (P([1, 3, 3.0, 5, 9, 0, 'x', 'X', B, 40, 10]), P([COL, COL, ROW, ROW2, [[5]], []]), P([0, 1, -1])),
+        '_xmatch': lambda: (P([1, 3, 5, 9, 'x', 40, 10, 55]), P([COL, COL, ROW, ROW2, [[5]]]), P([0, -1, 1]), P([1, -1, 2, -2, 5])),
+        '_vlookup': lambda: (P([1, 3, 3.0, 5, 9, 0, 'x', B, 10]), P([TABLE, TABLE, ROW2, COL]), P([1, 2, 3]), P([True, False, 0, 1, 'x'])),
+        '_index': lambda: (P([TABLE, COL, [[1, 2, 3]], ROW, (TABLE, COL), (ROW2, ROW)]), P([-1, 0, 1, 2, 9, None]), P([None, 0, 1, 3, 9, -1]), P([1, 2, 3])),
         '_address': lambda: (P([1, 77]), P([1, 26, 27, 52, 702, 703, 16384]), *P([(), ('1',), ('4',), ('2', 'False'), ('3', 'True', 'Sh')])),
         '_sum': lambda: ([P(scal) for _ in range(4)],), '_average': lambda: ([P(NUMS + [B, 'x']) for _ in range(3)],),
         '_min': lambda: ([P(NUMS + ['x', '#N/A', B]) for _ in range(3)],), '_max': lambda: ([P(NUMS + ['x', '#REF!', B]) for _ in range(3)],),
